@@ -48,6 +48,8 @@ func catalogue() *config.MechanismPrototypes {
 		Finalizers: []config.Mechanism{
 			{ID: "hdrs", Type: "header", Config: config.MechanismConfig{"headers": map[string]any{
 				"X-User": "pipeline-user", "Authorization": "Bearer pipeline", "Host": "pipeline.host",
+				// a pipeline header may render to the empty string (e.g. a missing subject attribute): it still replaces the client's
+				"X-Groups": `{{ with .Subject.Attributes.groups }}{{ . }}{{ end }}`,
 			}}},
 		},
 	}
@@ -285,6 +287,11 @@ func judge(c *engine.Ctx, f *fixture, cs *Case) {
 		}
 	}
 
+	if vals := up.Header.Values("X-Groups"); len(vals) > 1 || (len(vals) == 1 && vals[0] != "") {
+		c.Violation("pipeline-header-with-empty-value-does-not-replace-client-header/X-Groups",
+			fmt.Sprintf("%+v: upstream X-Groups=%q", *cs, vals), cs)
+	}
+
 	if up.Host != "pipeline.host" || len(up.Header.Values("Host")) != 0 {
 		c.Violation("pipeline-host-header-not-applied", fmt.Sprintf("%+v: upstream host %q, Host fields %q", *cs, up.Host, up.Header.Values("Host")), cs)
 	}
@@ -344,7 +351,7 @@ func rewrites(quick bool) []Rewrite {
 }
 
 func paths(quick bool) []string {
-	segs := []string{"api", "v1", "a%20b", "%C3%A4", "x%2Fy", "~t", "%7Et"}
+	segs := []string{"api", "v1", "a%20b", "%C3%A4", "x%2Fy", "~t", "%7Et", "o'neil", "(d)*!"}
 
 	var out []string
 
@@ -411,13 +418,13 @@ func Check() *engine.Check {
 func headerCases() [][][2]string {
 	var out [][][2]string
 
-	names := []string{"X-User", "Authorization", "Host"}
+	names := []string{"X-User", "Authorization", "Host", "X-Groups"}
 	casings := []func(string) string{
 		func(s string) string { return s }, strings.ToLower, strings.ToUpper,
 		func(s string) string { return strings.ToLower(s[:1]) + strings.ToUpper(s[1:]) },
 	}
 
-	for subset := 0; subset < 8; subset++ {
+	for subset := 0; subset < 16; subset++ {
 		for ci, cf := range casings {
 			for _, rep := range []bool{false, true} {
 				var h [][2]string
